@@ -302,8 +302,29 @@ pub fn gen_c08(c: &mut Ctx) {
                 p!(c, "eq {} {} {}", ty, a.show(), b.show());
                 p!(c, "next {} {}", ty, a.show());
             }
-            // carries: low k words all ones
+            // multi-word tables that differ in exactly two words, ordered oppositely there: the
+            // most significant differing word decides, whatever a word-0-first comparison says
             let sz = table_size(n);
+            if sz >= 2 {
+                for _ in 0..(if c.thorough { 12 } else { 4 }) {
+                    let a = gen_dense(&mut c.rng, n);
+                    let mut b = a.clone();
+                    let i = c.rng.below(sz - 1);
+                    let j = i + 1 + c.rng.below(sz - 1 - i);
+                    // word i: a > b ; word j: a < b  (or the other way round)
+                    let (x, y) = (c.rng.next() | 1, c.rng.next() | 1);
+                    let flip = c.rng.coin();
+                    let mut a2 = a.clone();
+                    a2.w[i] = x.max(y);
+                    b.w[i] = x.max(y) - 1;
+                    a2.w[j] = x.min(y) - 1;
+                    b.w[j] = x.min(y);
+                    let (l, r) = if flip { (b, a2) } else { (a2, b) };
+                    p!(c, "cmp {} {} {}", ty, l.show(), r.show());
+                    p!(c, "eq {} {} {}", ty, l.show(), r.show());
+                }
+            }
+            // carries: low k words all ones
             for k in 0..=sz.min(if c.thorough { 64 } else { 6 }) {
                 let mut a = gen_dense(&mut c.rng, n);
                 for i in 0..k.min(sz) {
@@ -609,7 +630,8 @@ pub fn gen_c10(c: &mut Ctx) {
         let t: Vec<&str> = l.split_whitespace().collect();
         if t.len() > 1 && t[1] == "S" {
             k += 1;
-            if k % keep_every == 0 {
+            // comparisons are cheap and order bugs need particular pairs: keep them all
+            if k % keep_every == 0 || t[0] == "cmp" {
                 c.push(l);
             }
         }
